@@ -47,6 +47,12 @@ def base_specs():
         ("l", ("aa", ("m", (("ka", "ab"), ("kb", 1000))), "xx")),
         ("m", (("ka", ("l", ("aa", "ab"))), ("kb", ("m", (("ka", 2000),))))),
         ("l", (("l", ("aa", "ab")), ("l", ("xx", 1000)))),
+        # a matched key whose value holds containers INSIDE a list (the
+        # expansion has to carry the alias options through list elements)
+        ("m", (("ka", "aa"), ("kb", ("l", (("m", (("ka", "ab"),
+                                                  ("kc", "xx"))), "yy"))))),
+        ("m", (("ka", "aa"), ("kb", ("m", (("kc", ("l", (("l", ("ab",)),
+                                                         "xx"))),))))),
     ]
 
 
